@@ -4,6 +4,9 @@
    those sets equal the definitions.  So any two back-ends that meet the contract return the definition's answer.
    Whether z3 Optimize / RC2 with a given SAT engine meet the contract is checked per call (C15) and per answer here. *)
 From InfOCF Require Import Core Tol Form Model Spec Mcs Cnf ThmCnf ThmTop.
+From InfOCF Require Import PyLib TieSolver TieMax TieBackends.
+From InfOCFGen Require Import SrcW SrcLex SrcWZ3 SrcLexZ3.
+From Coq Require Import ZArith.
 
 Theorem C11_enumeration_independent_of_oracle : forall (asg:Type) (M:list asg) (V:asg->bv) (k:nat), (forall m, length (V m) = k) ->
   forall pick1 pick2,
@@ -27,3 +30,30 @@ Proof. exact infer_w_ext. Qed.
 Theorem C11_lex_answer_ext : forall n D q P, D <> [] -> part_ext n D = Some P -> infer n SysLex true D q = Ans (ext_spec (worlds n) P q lex_spec).
 Proof. exact infer_lex_ext. Qed.
 Print Assumptions C11_system_w_answer. Print Assumptions C11_lex_answer. Print Assumptions C11_system_w_answer_ext. Print Assumptions C11_lex_answer_ext.
+
+(* SOURCE TIE.  Both back-ends of System W and of lexicographic inference are GENERATED from /repo's sources on every run
+   (system_w.py / system_w_z3.py, lex_inf.py / lex_inf_z3.py).  For every base with distinct keys, every layering of it,
+   every query and either mode the two generated back-ends return the same answer. *)
+Theorem C11_source_backends_agree_system_w : forall n q D, NoDup (map kz D) ->
+  forall (lay:cond -> nat) m, (forall c, In c D -> lay c < m) -> 0 < m ->
+  forall nf fd : dict BinNums.Z scnf, dict_keys nf = map kz D ->
+  (forall c, In c D -> exists cn, zdict_find nf (kz c) = Some cn /\ forall w, scnf_holds cn w = negb (fal c w)) ->
+  (forall c, In c D -> exists cn, zdict_find fd (kz c) = Some cn /\ forall w, scnf_holds cn w = fal c w) ->
+  forall bb, (forall c, In c D -> zdict_find (bb_conditionals bb) (kz c) = Some c) ->
+  forall weakly vq0 fq0 u1 u2 u3,
+  py_SystemW_inference n (S m) (Pk D lay m) nf fd vq0 fq0 bb u1 q weakly u2
+  = py_SystemWZ3_inference n (S (length (Pc D lay m) + length (worlds n) + 1)) (Pc D lay m) q weakly u3.
+Proof. exact src_backends_agree_w. Qed.
+Print Assumptions C11_source_backends_agree_system_w.
+Theorem C11_source_backends_agree_lex_inf : forall n q D, NoDup (map kz D) ->
+  forall (lay:cond -> nat) m, (forall c, In c D -> lay c < m) -> 0 < m ->
+  forall nf fd : dict BinNums.Z scnf, dict_keys nf = map kz D ->
+  (forall c, In c D -> exists cn, zdict_find nf (kz c) = Some cn /\ forall w, scnf_holds cn w = negb (fal c w)) ->
+  (forall c, In c D -> exists cn, zdict_find fd (kz c) = Some cn /\ forall w, scnf_holds cn w = fal c w) ->
+  forall bb, (forall c, In c D -> zdict_find (bb_conditionals bb) (kz c) = Some c) ->
+  forall weakly vq0 fq0 u1 u2 u3, exists b1 b2,
+  py_LexInf_inference n (S m) (Pk D lay m) nf fd vq0 fq0 bb u1 q weakly u2 = Return b1 /\
+  py_LexInfZ3_inference n (S (length (Pc D lay m) + length (worlds n) + 1)) (Pc D lay m) q weakly u3 = Return b2 /\
+  trivial n q || b1 = trivial n q || b2.
+Proof. exact src_backends_agree_lex. Qed.
+Print Assumptions C11_source_backends_agree_lex_inf.
